@@ -1,4 +1,5 @@
 import Chain33Model.Proofs.C15Old
+import Chain33Model.Proofs.C15Exec
 import Chain33Model.Proofs.C15Norm
 /-!
 C15 — Assets are conserved and balances never go negative.  Property theorems only.
@@ -9,7 +10,9 @@ Model: `Model/C15.lean` (`step : Cfg → State → Op → State × Res`, Go int6
 (ExecDepositFrozen checks the frozen addition before issuing).  Quantities (`supply`, `subSum`,
 `deficit`, `NonNeg`, `Inv`, `opSupply`, `granted`, `opDeficit`) are defined in `Proofs/`.
 `σ` = address spellings, `κ` = storage keys, `c.norm` = `address.FormatAddrKey`; every theorem
-holds for *every* `norm`, every configuration and every operation list — no side hypotheses.
+holds for *every* `norm`, every configuration and every operation list.  Side hypotheses remain
+only in `case_insensitive_partial` (exec-address argument in one spelling; the full statement is
+refuted: `case_insensitive_exec_full_false`) and `exec_equation_partial`.
 -/
 set_option linter.unusedSectionVars false
 namespace C15
@@ -99,6 +102,24 @@ theorem alias_rejected (c : Cfg σ κ) (s : State σ κ) (f t e : σ) (amt : Int
   unfold execTransfer execTransferFrozen
   simp [heq]
 
+/-- **The exec equation as an invariant.**  For every op list that (i) names the exec address `e`
+by the one spelling `e` in TransferToExec / TransferWithdraw / ExecDepositFrozen / GenesisInitExec
+(other exec addresses must have another storage key), (ii) never touches the main record of `e` by
+a plain Transfer / Mint / Burn / GenesisInit / ExecIssueCoins, (iii) does not use the raw
+ExecDeposit / ExecWithdraw on `e` (`OneSpelling`), and in which (iv) no step panicked (`NoPanic`:
+a panic leaves a partial write that the caller rolls back): the balance of the exec address equals
+the sum of balance + frozen of the accounts held under it.  ExecFrozen, ExecActive, ExecTransfer,
+ExecTransferFrozen are unrestricted. -/
+theorem exec_equation_partial (c : Cfg σ κ) (e : σ) (ops : List (Op σ))
+    (hops : ∀ op ∈ ops, OneSpelling c e op) (hp : NoPanic c State.init ops) :
+    (loadMain c (run c State.init ops) e).bal = subSum e (run c State.init ops) := by
+  have h := deficit_run_const c e ops (inv_init c) hops hp
+  have h0 : deficit c (State.init : State σ κ) e = 0 := by
+    simp [deficit, loadMain, subSum, State.init, aget, asumP]
+  rw [h0] at h
+  unfold deficit at h
+  omega
+
 /-- A negative genesis grant is rejected in every state: `ErrAmount`, nothing changes. -/
 theorem negative_grant_rejected (c : Cfg σ κ) (s : State σ κ) (a e : σ) (amt : Int) (h : amt < 0) :
     step c s (.genesis a amt) = (s, .errAmount) ∧ step c s (.genesisExec a amt e) = (s, .errAmount) := by
@@ -106,10 +127,19 @@ theorem negative_grant_rejected (c : Cfg σ κ) (s : State σ κ) (a e : σ) (am
 
 /-! ## Spellings with the same storage key are one account -/
 
-/-- For every state: two spellings with equal `norm` (for the eth driver: differing only in hex
-letter case, see `normEth`) read the same balance and frozen amount, in the main ledger and under
-every exec address. -/
-theorem case_insensitive (c : Cfg σ κ) (s : State σ κ) (a b : σ) (h : c.norm a = c.norm b) :
+/-- Full statement of the last clause of the property: any two spellings of one address — as the
+*account* argument and as the *exec-address* argument — read the same record. -/
+def CaseInsensitiveFull (σ κ : Type) [DecidableEq σ] [DecidableEq κ] : Prop :=
+  ∀ (c : Cfg σ κ) (ops : List (Op σ)) (a b e e' : σ), c.norm a = c.norm b → c.norm e = c.norm e' →
+    (loadSub c (run c State.init ops) a e).bal = (loadSub c (run c State.init ops) b e').bal
+
+/-- `case_insensitive_partial`: for every state, two spellings `a`, `b` with equal `norm` (for the
+eth driver: differing only in hex letter case, see `normEth`) read the same balance and frozen
+amount in the main ledger and under every exec address **given by one spelling `e`**.
+Hypothesis added to the full statement: the exec-address argument is the same string on both
+sides — `execAccountKey` does not normalise `execaddr` (finding, see
+`case_insensitive_exec_full_false`). -/
+theorem case_insensitive_partial (c : Cfg σ κ) (s : State σ κ) (a b : σ) (h : c.norm a = c.norm b) :
     (loadMain c s a).bal = (loadMain c s b).bal ∧ (loadMain c s a).frz = (loadMain c s b).frz ∧
     ∀ e, (loadSub c s a e).bal = (loadSub c s b e).bal ∧ (loadSub c s a e).frz = (loadSub c s b e).frz := by
   refine ⟨?_, ?_, fun e => ⟨?_, ?_⟩⟩
@@ -186,6 +216,20 @@ example : (loadMain wcfg (genesisOld wcfg State.init 0 (-1)).1 0).bal = -1 ∧
     (loadMain wcfg (transfer wcfg (genesisOld wcfg State.init 0 (-9223372036854775808)).1 0 2 1).1 0).bal
       = 9223372036854775807 := by decide
 
+/-- The exec-address argument is NOT spelling-insensitive: after moving 400 into exec `100`, the
+sub-account read through spelling `101` of the same exec address (`norm 100 = norm 101`, and the
+main record of `100`/`101` is one: 400) is empty, a withdrawal through `101` fails, and a second
+TransferToExec through `101` leaves `balance(exec) − Σ sub-accounts(100) = +50`. -/
+theorem case_insensitive_exec_full_false : ¬ CaseInsensitiveFull Nat Nat := fun h => by
+  have := h wcfg [.genesis 2 1000, .toExec 2 100 400] 2 2 100 101 rfl (by decide)
+  exact absurd this (by decide)
+
+example : (loadMain wcfg (run wcfg State.init [.genesis 2 1000, .toExec 2 100 400]) 101).bal = 400 ∧
+    (step wcfg (run wcfg State.init [.genesis 2 1000, .toExec 2 100 400]) (.withdraw 2 101 10)).2
+      = .errNoBalance ∧
+    deficit wcfg (run wcfg State.init [.genesis 2 1000, .toExec 2 100 400, .toExec 2 101 50]) 100 = 50 := by
+  decide
+
 /-- state used by the alias examples: account 1 (spelling 2) funded, 100 moved into exec 100. -/
 def aliasOps : List (Op Nat) := [.genesis 2 1000, .toExec 2 100 100]
 
@@ -205,6 +249,13 @@ example : (loadSub wcfg (run wcfg State.init demoOps) 3 100).frz = 130 ∧
 example : (step wcfg (run wcfg State.init demoOps) (.execTransfer 2 4 100 10)).2 = .ok ∧
     (step wcfg (run wcfg State.init demoOps) (.toExec 2 100 10)).2 = .ok ∧
     (step wcfg (run wcfg State.init demoOps) (.mint 2 10)).2 = .ok := by decide +kernel
+/-- `exec_equation_partial` is not vacuous: the demo run uses one spelling of exec 100, no panic. -/
+example : (∀ op ∈ demoOps, OneSpelling wcfg 100 op) ∧ NoPanic wcfg State.init demoOps := by
+  refine ⟨?_, ?_⟩
+  · intro op hop
+    simp only [demoOps, List.mem_cons, List.mem_nil_iff, or_false] at hop
+    rcases hop with rfl | rfl | rfl | rfl | rfl | rfl | rfl | rfl <;> simp [OneSpelling, wcfg]
+  · decide +kernel
 /-- `old_guard_alias_mints` is not vacuous (spellings 2 ≠ 3 with equal `norm`, the old guard accepts),
 and the repaired `execTransfer` rejects the same call while accepting an honest one. -/
 example : wcfg.norm 2 = wcfg.norm 3 ∧
